@@ -75,8 +75,19 @@ fn perturb(t: &mut Tape, p: &Program) -> Option<(Program, String)> {
     let c_if = cand(&|i| matches!(&olds[i].kind, EKind::If(_, Some(d)) if d.value.is_some()));
     let c_list = cand(&|i| matches!(&olds[i].kind, EKind::List(xs) if !xs.is_empty()));
     let c_tuple = cand(&|i| matches!(&olds[i].kind, EKind::TupleIdx(..)) || matches!(&olds[i].kind, EKind::Tuple(xs) if !xs.is_empty()));
-    let pools: [(&Vec<usize>, u32); 9] =
-        [(&c_any, 20), (&c_var, 16), (&c_blob, 45), (&c_call, 10), (&c_field, 10), (&c_variant, 8), (&c_if, 8), (&c_list, 6), (&c_tuple, 8)];
+    let c_op = cand(&|i| matches!(&olds[i].kind, EKind::Bin(..)));
+    let pools: [(&Vec<usize>, u32); 10] = [
+        (&c_any, 20),
+        (&c_var, 16),
+        (&c_blob, 45),
+        (&c_call, 10),
+        (&c_field, 10),
+        (&c_variant, 8),
+        (&c_if, 8),
+        (&c_list, 6),
+        (&c_tuple, 8),
+        (&c_op, 14),
+    ];
     let weights: Vec<u32> = pools.iter().map(|(c, w)| if c.is_empty() { 0 } else { *w }).collect();
     if weights.iter().all(|w| *w == 0) {
         return None;
@@ -202,6 +213,21 @@ fn perturb(t: &mut Tape, p: &Program) -> Option<(Program, String)> {
                 let inner = xs[0].ty.clone();
                 y.push(other_scalar(t, &inner));
                 (mark(e(claimed.clone(), EKind::List(y))), "heterogeneous-list")
+            }
+            _ => return None,
+        },
+        9 => match &old.kind {
+            // the operator is replaced by another one of the same result type; whether the operands admit it is the
+            // type checker's business (`true <= false`, `"a" - "b"`, `blob < blob`, `1 and 2` must all be rejected)
+            EKind::Bin(op, a, b) => {
+                let family: &[BinOp] = match op {
+                    BinOp::Add | BinOp::Sub | BinOp::Mul => &[BinOp::Add, BinOp::Sub, BinOp::Mul],
+                    BinOp::Div => return None,
+                    _ => &[BinOp::Eq, BinOp::Ne, BinOp::Lt, BinOp::Le, BinOp::Gt, BinOp::Ge, BinOp::And, BinOp::Or],
+                };
+                let others: Vec<BinOp> = family.iter().copied().filter(|o| o != op).collect();
+                let new_op = *t.pick(&others);
+                (mark(e(claimed.clone(), EKind::Bin(new_op, a.clone(), b.clone()))), "operator-replaced")
             }
             _ => return None,
         },
